@@ -31,6 +31,9 @@ type Script struct {
 	Cuts    []int  `json:"cuts"`     // sizes of successive deliveries; remainder is delivered as one piece
 	Bufs    []int  `json:"bufs"`     // reader buffer sizes, used cyclically
 	EndErr  int    `json:"end_err"`  // 0: io.EOF, 1: ECONNRESET-like error, 2: timeout error
+	// DataWithErr: the connection returns its last bytes together with the final error in one Read (n > 0 and
+	// err != nil, which the io.Reader contract allows and TLS-in-TLS or buffered conns do)
+	DataWithErr bool `json:"data_with_err,omitempty"`
 	Probes  []int  `json:"probes"`   // indices of reads after which GetClientHello is called early
 }
 
@@ -54,9 +57,11 @@ var errReset = errors.New("read: connection reset by peer")
 // scriptedConn delivers the stream in the scheduled pieces; a Read never returns more than the current
 // piece or len(b); errors are delivered with n == 0 (what net.TCPConn callers observe).
 type scriptedConn struct {
-	pieces [][]byte
-	end    error
-	reads  int
+	pieces      [][]byte
+	end         error
+	reads       int
+	dataWithErr bool
+	lastWithErr int // >0: the final Read returned this many bytes together with end
 }
 
 func (c *scriptedConn) Read(b []byte) (int, error) {
@@ -69,6 +74,11 @@ func (c *scriptedConn) Read(b []byte) (int, error) {
 	}
 	n := copy(b, c.pieces[0])
 	c.pieces[0] = c.pieces[0][n:]
+	if c.dataWithErr && len(c.pieces) == 1 && len(c.pieces[0]) == 0 {
+		c.pieces = nil
+		c.lastWithErr = n
+		return n, c.end
+	}
 	return n, nil
 }
 func (c *scriptedConn) Write(b []byte) (int, error) { return len(b), nil }
@@ -139,7 +149,7 @@ func execScript(s Script) (*vstat.Violation, info) {
 	default:
 		end = io.EOF
 	}
-	sc := &scriptedConn{pieces: pieces, end: end}
+	sc := &scriptedConn{pieces: pieces, end: end, dataWithErr: s.DataWithErr}
 	h := hack.NewHijackClientHelloConn(sc)
 
 	probes := map[int]bool{}
@@ -161,6 +171,13 @@ func execScript(s Script) (*vstat.Violation, info) {
 	check := func(when string) *vstat.Violation {
 		want := truth(stream, delivered)
 		rec, err := h.GetClientHello()
+		if sc.lastWithErr > 0 && (truth(stream, delivered-sc.lastWithErr) == nil) != (want == nil) {
+			// the bytes that completed the record came together with the connection's final error: whether they
+			// count as "arrived" for the capture is left open (no handshake can follow); transparency is not
+			if err != nil && len(rec) == 0 || err == nil && bytes.Equal(rec, want) {
+				return nil
+			}
+		}
 		if want == nil {
 			if err == nil {
 				cls := "reject-case"
@@ -206,6 +223,15 @@ func execScript(s Script) (*vstat.Violation, info) {
 			b[j] = 0xEE
 		}
 		n, err := h.Read(b)
+		if err != nil && sc.lastWithErr > 0 {
+			if n != sc.lastWithErr || err != end {
+				return vstat.Violf("transparency|data-with-error-altered", "read %d: the connection returned its last %d bytes together with %v; the wrapper returned n=%d err=%v", i, sc.lastWithErr, end, n, err), inf
+			}
+			got = append(got, b[:n]...)
+			delivered += n
+			inf.classes = append(inf.classes, "data-with-final-error")
+			break
+		}
 		if err != nil {
 			if n != 0 {
 				return vstat.Violf("transparency|n-with-error", "read %d: n=%d with error %v (conn returned n=0)", i, n, err), inf
@@ -412,6 +438,7 @@ func genScript(t *rapid.T) Script {
 		s.Bufs = []int{70000}
 	}
 	s.EndErr = rapid.IntRange(0, 2).Draw(t, "endErr")
+	s.DataWithErr = rapid.IntRange(0, 3).Draw(t, "dataWithErr") == 0
 	if rapid.Bool().Draw(t, "probe") {
 		s.Probes = rapid.SliceOfN(rapid.IntRange(-1, 12), 1, 4).Draw(t, "probes")
 	}
@@ -429,7 +456,7 @@ func sample(s Script, inf info) any {
 }
 
 func TestHijack(t *testing.T) {
-	col.Mandatory("accept", "reject:type", "reject:version", "reject:truncated", "reject:short-header", "cut-in-header", "read-crosses-record-end", "declared:0", "declared:65531-65535", "following-bytes")
+	col.Mandatory("accept", "reject:type", "reject:version", "reject:truncated", "reject:short-header", "cut-in-header", "read-crosses-record-end", "declared:0", "declared:65531-65535", "following-bytes", "data-with-final-error")
 	vstat.Run(t, vstat.Spec[Script]{
 		Col: col, Gen: genScript, Quick: 40000, Thorough: 1500000,
 		Exec: func(s Script) *vstat.Violation {
